@@ -2,6 +2,7 @@
 import ast
 import itertools
 
+import hy
 import hy.scoping as hsc
 from hy.models import Expression, Integer, Keyword, List, Symbol
 
@@ -203,6 +204,38 @@ def leak_checks(chk):
                            detail=f"declared {sorted(declared)} ({sorted(decl_kind)}), expected {sorted(want)}\n{sx.show(out.result)}")
 
 
+def destructuring_target_leaks(chk):
+    """As leak_checks, for destructuring iteration / :setv targets: every name the target binds - also the rest name of a
+    `#*` unpack and names nested in sub-lists - is an iteration variable of the comprehension and is never declared
+    nonlocal/global in the lifted function, whether or not a sub-form assigns it again."""
+    from hy.models import List as L
+    targets = {
+        "[ua #* ur]": (lambda: L([S("ua"), E(S("unpack-iterable"), S("ur"))]), {"ua", "ur"}),
+        "[ua [ub #* ur]]": (lambda: L([S("ua"), L([S("ub"), E(S("unpack-iterable"), S("ur"))])]), {"ua", "ub", "ur"}),
+        "#(ua ub)": (lambda: hy.models.Tuple([S("ua"), S("ub")]), {"ua", "ub"}),
+    }
+    for head in ("lfor", "sfor", "gfor", "dfor"):
+        for kind in ("module", "function"):
+            for tname, (mk, own) in targets.items():
+                for clause in ("for", "setv"):
+                    for assigned in (("uouter",), ("ur",), ("ua", "uouter")):
+                        a = Tok("a", "SE", assigns=assigned)
+                        parts = ([mk(), Tok("xs", "E")] if clause == "for" else [S("ux"), Tok("xs", "E"), Keyword("setv"), mk(), Tok("v", "E")])
+                        parts += [Keyword("do"), a]
+                        final = [Tok("e", "E")] + ([Tok("val", "E")] if head == "dfor" else [])
+                        out = sx.run_rule(E(S(head), *parts, *final), scope_ctx=scope_ctx(kind))
+                        name = f"leak/{head}/{kind}/destructuring {clause} target {tname}/a sub-form assigns {'+'.join(assigned)}"
+                        chk.case(name)
+                        if not out.ok:
+                            chk.ob(name, False, "structural", "proved", detail=repr(out.exc)[:200])
+                            continue
+                        fds = [s_ for s_ in out.result.stmts if isinstance(s_, (ast.FunctionDef, ast.AsyncFunctionDef))]
+                        declared = {n for fd in fds for s_ in fd.body if isinstance(s_, (ast.Nonlocal, ast.Global)) for n in s_.names}
+                        want = set(assigned) - own - ({"ux"} if clause == "setv" else set())
+                        chk.ob(name, len(fds) == 1 and declared == want, "structural", "proved",
+                               detail=f"declared {sorted(declared)}, expected {sorted(want)}\n{sx.show(out.result)}")
+
+
 def first_iterable_scope(chk):
     """Python evaluates the first iterable of a comprehension in the *enclosing* scope (language reference 6.2.4); the
     lifted generator-function strategy must do the same, otherwise the two strategies differ as soon as the iterable names a
@@ -266,6 +299,7 @@ def run(chk):
     from hv.replay import replay_mismatch
     rules.run_cases(chk, names, replay_fn=replay_mismatch)
     leak_checks(chk)
+    destructuring_target_leaks(chk)
     first_iterable_scope(chk)
     chk.fn("hy/core/result_macros.py::compile_comprehension", "hy/scoping.py::ScopeGen.assign/access/iterator/finalize/__enter__",
            "hy/scoping.py::is_inside_function_scope, nearest_python_scope")
